@@ -8,6 +8,11 @@
 (*        elements after the calls (types / run shapes by name)            *)
 (*   Sym  a basis, a symmetry g, the image computed by the real code and   *)
 (*        the verdicts of the real functions on both                       *)
+(*   Q    one question: a basis (the elements the entry point was given,   *)
+(*        in any container / through any entry point: the six functions,   *)
+(*        the Av methods, the command line, a cold process), the function  *)
+(*        f and the answer res; judged by the structure theorem for the    *)
+(*        set of the elements                                              *)
 (* Clauses (violations): Verdict<F> - the real verdict is not the one the  *)
 (* structure theorem gives; FiniteEmptyBeyondBound, InfiniteNeverEmpty,    *)
 (* NonPolynomialAtLeastFibonacci - the real verdict contradicts the real   *)
@@ -59,6 +64,9 @@ TSym == /\ Ev.op = "Sym"
            IN  /\ bad' = bad \o Flags(MapSeq(wrong, LAMBDA f : ClauseOf[f])
                                       \o (IF imageOK /\ ~SymOK(Ev.g, Ev.v, Ev.vimg) THEN <<"SymmetryInvariant">> ELSE <<>>))
                /\ drift' = drift \o Flags(IF imageOK THEN <<>> ELSE <<"SymImage">>)
-TNext == l <= Len(Trace) /\ l' = l + 1 /\ (TV \/ TSym)
+TQ == /\ Ev.op = "Q"
+      /\ bad' = bad \o Flags(IF Ev.res = GVerdict(ToSetOf(Ev.basis), Ev.f) THEN <<>> ELSE <<ClauseOf[Ev.f]>>)
+      /\ drift' = drift
+TNext == l <= Len(Trace) /\ l' = l + 1 /\ (TV \/ TSym \/ TQ)
 TraceDone == l = Len(Trace) + 1 => PrintT(ToJson([verdict |-> bad, drift |-> drift, n |-> Len(Trace)]))
 =============================================================================
